@@ -46,6 +46,24 @@ class Event:
         return "Event(%d,%d)" % (self.sub, self.k)
 
 
+class AwaitableEvent:
+    """An event that happens to be awaitable (a future-like handle the
+    application passes along): it is the ROOT VALUE of that event's execution
+    as it stands -- nobody is asked to await it."""
+    __slots__ = ("sub", "k")
+
+    def __init__(self, sub, k):
+        self.sub = sub
+        self.k = k
+
+    def __await__(self):
+        return Event(self.sub, self.k)
+        yield  # pragma: no cover - makes this a generator
+
+    def __repr__(self):
+        return "AwaitableEvent(%d,%d)" % (self.sub, self.k)
+
+
 class SubCtx(ReqCtx):
     is_subscription = True
 
@@ -60,7 +78,8 @@ class SubCtx(ReqCtx):
         if k < len(self.worlds):
             self.world = self.worlds[k]
             self.faults = self.world.faults
-        self.events_seen.append(event.k if isinstance(event, Event) else k)
+        self.events_seen.append(
+            event.k if isinstance(event, (Event, AwaitableEvent)) else k)
 
 
 class PullSource:
@@ -142,7 +161,8 @@ DELAYS = (0.0, 0.0, 0.001, 0.010, 1.0, 60.0)
 
 def _subscription_resolver(root, ctx, info, **kwargs):
     ctx.sub_calls += 1
-    ctx.sub_kwargs = kwargs
+    from .workload import gql_kwargs
+    ctx.sub_kwargs = gql_kwargs(ctx.world.spec, kwargs)
     ctx.sub_root = root
     ctx.log("sub_resolver", tuple(info.path), ctx.req_id)
     if ctx.sub_async is None:
@@ -163,6 +183,7 @@ class SubPlan:
 
 
 REFUSALS = ("two-fields", "two-aliases", "two-via-fragment",
+            "two-with-typename",
             "two-inside-one-fragment", "two-inside-inline-fragment",
             "no-resolver", "query-op", "mutation-op", "blocking-runtime",
             "pool-runtime")
@@ -228,6 +249,16 @@ def _plan(draws, spec, idx, scenario, sync_only=False):
             op.sel = [Spread("FX")]
         else:
             op.sel = [InlineFrag(spec.subscription, both)]
+    if scenario == "two-with-typename":
+        # the subscription field first, then a meta field: two root fields
+        tn = FieldSel("__typename", alias="t" if rs.below(2, "tn_alias")
+                      else None)
+        tn.ptype = spec.subscription
+        if rs.below(2, "tn_via_fragment"):
+            op.fragments["FT"] = (spec.subscription, [tn])
+            op.sel.append(Spread("FT"))
+        else:
+            op.sel.append(tn)
     if scenario in ("two-fields", "two-aliases", "two-via-fragment"):
         extra = OpGen(rs, spec, max_depth=1, budget=4,
                       features={"sub_field":
@@ -263,6 +294,26 @@ def _plan(draws, spec, idx, scenario, sync_only=False):
                     op.vars[src[1]].provided = False
                     op.vars[src[1]].json = op.vars[src[1]].py = None
         _resolve(op, spec)
+    if scenario == "ok" and op.kind == "subscription" and \
+            rs.chance(1, 5, "two_subscription_ops"):
+        # a document holding TWO subscription operations, the one asked for
+        # by name not being the first
+        which_f = spec.fields["s0"]
+        need = [a for a in which_f.args if a.type[0] == "NN"]
+        lits = {"Int": "1", "String": '"x"', "Boolean": "true",
+                "Float": "1.5", "ID": '"i"', "Color": "RED"}
+        from .workload import named as _named
+        if all(a.type[1][0] == "N" and _named(a.type) in lits for a in need):
+            argtxt = ", ".join("%s: %s" % (a.name, lits[_named(a.type)])
+                               for a in need)
+            sub_sel = " { __typename }" if spec.is_composite(
+                _named(which_f.type)) else ""
+            op.extra_op = True
+            op.extra_first = True
+            op.extra_text = "subscription Other { other: s0%s%s }" % (
+                "(%s)" % argtxt if argtxt else "", sub_sel)
+            op.name = "Main"
+            op.operation_name = "Main"
     plan.op = op
     plan.text = render(op, rs.below(4, "layout"), bool(rs.below(2, "frags_first")))
     plan.n = rs.below(9, "n_events")
@@ -288,7 +339,9 @@ def _plan(draws, spec, idx, scenario, sync_only=False):
     plan.wseeds = [rs.below(1 << 30, "wseed") for _ in range(plan.n)]
     # an event may be any value the application likes, None included
     plan.event_values = [
-        None if rs.chance(1, 8, "none_event") else Event(idx, k)
+        None if rs.chance(1, 8, "none_event") else
+        (AwaitableEvent(idx, k) if rs.chance(1, 8, "awaitable_event")
+         else Event(idx, k))
         for k in range(plan.n)]
     plan.faults = [dict() for _ in range(plan.n)]
     plan.exps = []
